@@ -642,7 +642,14 @@ class FormulaMaterializer(metaclass=FormulaMaterializerMeta):
                     f"`{spec.encoder_state[factor.expr][0]}`, but they are actually of kind "
                     f"`{value.__formulaic_metadata__.kind.value}`."
                 )
-            self._check_for_nulls(factor.expr, value, spec.na_action, drop_rows)
+            try:
+                self._check_for_nulls(factor.expr, value, spec.na_action, drop_rows)
+            except ValueError as e:
+                if "No implementation of `find_nulls()`" not in str(e):
+                    raise
+                raise FactorEvaluationError(
+                    f"Unable to evaluate factor `{factor}`: it does not evaluate to data values. [{type(e).__name__}: {e}]"
+                ) from e
             self.factor_cache[factor.expr] = EvaluatedFactor(
                 factor=factor, values=value, variables=variables
             )
